@@ -833,7 +833,8 @@ def C13_apply_patches_restores():
     sentinel = object()
 
     def snapshot():
-        return {(c.__name__, a): getattr(c, a, sentinel) for c in (Base, T, U) for a in ("own", "inherited", "missing")}
+        # the resolved object AND whether the class owns the attribute (an inherited attribute must be inherited again)
+        return {(c.__name__, a): (getattr(c, a, sentinel), a in vars(c)) for c in (Base, T, U) for a in ("own", "inherited", "missing")}
 
     class Boom(Exception):
         pass
@@ -868,7 +869,7 @@ def C13_apply_patches_restores():
                         raised = e
                     after = snapshot()
                     if after != before:
-                        diff = [k for k in before if before[k] is not after[k]]
+                        diff = [k for k in before if before[k][0] is not after[k][0] or before[k][1] != after[k][1]]
                         desc = [(t.__name__, a, k) for (t, a), k in zip(ks, kd)]
                         return False, f"specs {desc}, body_raises={body_raises}: attributes {diff} do not resolve as before"
                     if body_raises and raised is None:
